@@ -80,7 +80,10 @@ reg("C20",
          "and local, none = first image HDU via the code's for/break loop, descriptions and images yield the same HDU/WCS in input order under every interleaving, one item per list position - a file named twice is read at each position with that position's own entry, "
          "command-line spelling selects the same thing) and emits the FITS contents to write and the expected (hdu, shape, value, key, CRVAL, CRPIX) per input path; "
          "the real load / SimpleFitsCollection / `toasty view` argv parsing / tile_fits are run on every case and descriptions(), images(), export_simple() compared, "
-         "plus real tile_fits and tile-multi-tan runs whose tile pixels are counted.",
+         "plus real tile_fits and tile-multi-tan runs whose tile pixels are counted. Every replayed case is a history on one collection object (TLC-enumerated sequences of "
+         "descriptions()/images() enumerations with in-place edits of the yielded objects - ensure_negative_parity, flip_parity, WCS/pixel overwrite, the library's own "
+         "_is_multi_tan and a FitsTiler TAN tiling - in between); every enumeration must equal what a fresh collection yields; spec/CollectionHistory.tla checks "
+         "LaterEnumerationIsFresh / NoAliasing / AlwaysAgree and refutes the description-caching design.",
     note="Bounds: quick 5 layouts x 1-3 files (7849 cases model-checked, 1483 replayed); thorough exhaustive over 59275 cases incl. all 208 layouts of <=3 HDUs (1 file) "
          "and all 32 layouts of <=2 HDUs (2 files). In scope = selected HDU exists, is a 2-D image and carries the key, list length = number of files. view/tile_fits "
          "observed at the hand-over to FitsTiler (recorder) with real end-to-end tiling on a subset. Trusted: astropy FITS/WCS reading, the harness's file writer.",
@@ -96,7 +99,10 @@ reg("C08",
          "and emits the segment tables. The real StudyTiling (rectangles, count, image_to_tile for every pixel, depth, offsets, compute_for_subimage) is compared with "
          "TLC's tables for critical x all size pairs, sub-images at tile/image edges and sampled sizes to 65537, and real tilings (tile_image, Builder + WTML template, "
          "tile-study CLI; RGB/RGBA/F32/F64/U8/I16 in png/npy/fits; every input-image default format - class default, png, npy, fits, set by constructor or by ImageLoader - x every pyramid "
-         "format that can hold the mode; sub-images inside a larger tiling) are read back from disk with independent readers and TLC's file-row table for the pyramid format's parity.",
+         "format that can hold the mode; sub-images inside a larger tiling) are read back from disk with independent readers and TLC's file-row table for the pyramid format's parity, "
+         "incl. half-float RGB (F16x3) and float/RGBA images whose undefined regions cover whole tiles, partial tiles and single colour planes (inside must equal the image exactly "
+         "incl. the per-channel NaN pattern). Sub-image tilings are exercised as histories on ONE StudyTiling object (parent queried / used to tile first, several sub-images derived in "
+         "turn, parent re-queried), matching the spec's full -> sub -> full -> sub behaviours.",
     note="Bounds: 2-D exhaustive for TS=4 w,h<=8 and TS=2 <=7 (thorough: TS=4 13x13, 20x6, 6x20; TS=2 9x9; TS=8 11x11) with all sub-images; per axis TS=256 all lengths "
          "<=1100 (thorough 4200). 2-D at TS=256 rests on Rects = AxisSegs x AxisSegs (checked at small TS and by IntervalPartitionOK on the emitted cases). Integer modes: "
          "'undefined' read as 0. TLC, the JSON bridge, PIL/numpy/astropy readers trusted.",
@@ -114,7 +120,9 @@ reg("C10",
          "real update_image calls with state comparison after every step, and schedules of the real code are explored with every full trace validated by TLC. "
          "Lock-acquisition time is virtual in the thread layer (every failed poll advances filelock's clock by >= 1 s) and the policy 'stall the holder before modify / write-begin / "
          "write-end / release while the waiter polls 40 times' is run; TLC refutes the design 'finite lock timeout + takeover' (StealLock) on Mutex and NoLostUpdate. The in-tree caller "
-         "ToastSampler is driven as separately started jobs with masked samplers on fresh, not yet existing tiles (barrier inside the sampler in real processes; all 2x1 schedules in the thread layer).",
+         "ToastSampler is driven as separately started jobs with masked samplers on fresh, not yet existing tiles (barrier inside the sampler in real processes; all 2x1 schedules in the thread layer). Real-process scenarios also start the updaters as separately "
+         "configured jobs with different environments (batch-scheduler job ids, host name, temp and home directory, locale set for some and unset for others), in both entering "
+         "orders; TLC refutes a design whose lock class, hence exclusion domain, depends on the updater's environment.",
     note="Bounds: exhaustive model 3x2 (thorough 4x2, 3x3), 4 abstract pixels, 2 tile positions; real runs up to 4 processes x 3 updates. Assumes atomic O_CREAT|O_EXCL and unlink, "
          "no updater crashing while holding the lock. Layer 2 runs only while update_image goes through filelock.SoftFileLock (otherwise drift; real processes decide). "
          "Real-process detection of a broken lock relies on a 0.25 s rendezvous window (affects sensitivity only). TLC, the JSON bridge and lib/simmp.Sched are trusted.",
